@@ -346,6 +346,8 @@ func (rt *Runtime) plainData() map[string]interface{} {
 		"tm3": fixedTime.In(time.FixedZone("", -5*3600)),
 		"tmp": &fixedTimeCopy,
 		// an options map the caller holds in a variable (and may pass to every render)
+		// a slice with spare capacity (built with append by the caller)
+		"xcap":  append(make([]int, 0, 8), 1+v, 2, 3),
 		"topts": map[string]interface{}{"size": 6 + v, "trail": "~"},
 		"topt2": map[string]interface{}{"size": 4},
 		"objs": []*Obj{
